@@ -90,6 +90,10 @@ pub enum Op {
     PushRow { len: LenSpec, src: Src },
     InsertCol { at: Ix, len: LenSpec, src: Src },
     PushCol { len: LenSpec, src: Src },
+    /// an insert whose iterator *reports* the expected length but yields `yield_delta` more or
+    /// fewer items: the effect on the contents is unspecified (C11 allows losing elements), but
+    /// the shape invariant must hold afterwards; the model is re-read from the array
+    InsertLying { row: bool, push: bool, at: Ix, yield_delta: i8 },
     RemoveRow { at: Ix, script: Vec<DStep> },
     PopRow { script: Vec<DStep> },
     RemoveCol { at: Ix, script: Vec<DStep> },
@@ -706,6 +710,41 @@ impl<'c, E: Elem + Clone + Default + Ord> Eng<'c, E> {
                 }
                 self.note_result(valid, res.is_err());
             }
+            Op::InsertLying { row, push, at, yield_delta } => {
+                let (dim, other) = if *row { (r, c) } else { (c, r) };
+                let i = at.resolve(dim).min(dim);
+                let expected = if empty { 2 } else { other };
+                let n = (expected as i64 + (*yield_delta).clamp(-2, 2) as i64).max(0) as usize;
+                if self.valid_only {
+                    self.ctx.class("skipped-invalid");
+                    return Ok(());
+                }
+                let (v, _) = mint_line::<E>(n, keyctr);
+                let it = super::fault::FIter::new(v, super::fault::Report::Expected, expected);
+                let t = &mut self.t;
+                let (row, push) = (*row, *push);
+                let res = catch(move || match (row, push) {
+                    (true, false) => t.insert_row(i, it),
+                    (true, true) => t.push_row(it),
+                    (false, false) => t.insert_col(i, it),
+                    (false, true) => t.push_col(it),
+                });
+                self.any_panic = true;
+                self.ctx.class(if res.is_err() { "lying-iterator-rejected" } else { "lying-iterator-accepted" });
+                // re-synchronise: only the shape invariant is demanded of the outcome
+                let t = &self.t;
+                let (c2, r2) = (t.num_cols(), t.num_rows());
+                if c2.checked_mul(r2) == Some(t.data().len()) && (c2 == 0) == (r2 == 0) {
+                    self.m = Model::from_flat(c2, r2, &ids_of(t));
+                } else if shape_mode {
+                    fail!("lying-iterator/invalid-shape", "after an insert whose iterator yields {} items but reports {}: size ({},{}) with {} cells", n, expected, c2, r2, t.data().len());
+                } else {
+                    self.diverged = true;
+                }
+                if self.m.is_empty() {
+                    self.went_empty = true;
+                }
+            }
             Op::RemoveRow { .. } | Op::PopRow { .. } => {
                 let (at, script) = match op {
                     Op::RemoveRow { at, script } => (Some(at.resolve(r)), script),
@@ -1052,6 +1091,7 @@ fn op_name(op: &Op) -> &'static str {
         Op::PushRow { .. } => "push_row",
         Op::InsertCol { .. } => "insert_col",
         Op::PushCol { .. } => "push_col",
+        Op::InsertLying { .. } => "insert(lying iterator)",
         Op::RemoveRow { .. } => "remove_row",
         Op::PopRow { .. } => "pop_row",
         Op::RemoveCol { .. } => "remove_col",
@@ -1283,6 +1323,7 @@ pub fn op() -> impl Strategy<Value = Op> {
         5 => (len_spec(), src()).prop_map(|(len, src)| Op::PushRow { len, src }),
         8 => (ix_bound(), len_spec(), src()).prop_map(|(at, len, src)| Op::InsertCol { at, len, src }),
         5 => (len_spec(), src()).prop_map(|(len, src)| Op::PushCol { len, src }),
+        2 => (any::<bool>(), any::<bool>(), ix_bound(), prop_oneof![Just(-1i8), Just(1i8), Just(2i8), Just(0i8)]).prop_map(|(row, push, at, yield_delta)| Op::InsertLying { row, push, at, yield_delta }),
         6 => (ix_elem(), drain_script()).prop_map(|(at, script)| Op::RemoveRow { at, script }),
         3 => drain_script().prop_map(|script| Op::PopRow { script }),
         6 => (ix_elem(), drain_script()).prop_map(|(at, script)| Op::RemoveCol { at, script }),
